@@ -14,6 +14,7 @@ LEVEL = "proof"
 COQ_FILES = ["Tie/C20_tie.v", "Props/C20_props.v"]
 PROPS_FILES = ["C20_props.v"]
 TRUSTED_BASE = [
+    "vlib/symex.py (symbolic execution of the translated Python subset on the ast: the translator reads value / outcome trees, so local names, intermediates, helpers and the form of branches do not matter; its assumptions - pure expressions, opaque calls, no aliasing writes, try handlers not modelled - are listed in DESIGN.md 12.7; fail-closed)",
     "py2gallina unit 'config': AST scan of direct/ (names defined or imported per module, dataclass fields and the kind of their defaults, parameters of build_mri_transforms), PyYAML reading of projects/**/*.yaml, and a structural check that the four name-resolution functions of direct/environment.py have the string form modelled in coq/Model/C20.v",
     "getattr(importlib.import_module(m), name) succeeds iff `name` is defined or imported at the top level of module m (the registry); OmegaConf's structured merge is modelled only for unknown keys of the model sections (types / enums are left to the correspondence with the real OmegaConf)",
     "the statement is finite: it is about the configurations shipped at the current working tree (bounded by that set, decided by vm_compute and lifted with forallb_forall)",
